@@ -3,12 +3,17 @@ C11  Connection validation and group scoping.
 
 * `exact`      : `connect_one` raises ScenarioError exactly in the four documented cases
 * `no_trace`   : a rejected attribute pair leaves the world unchanged
+* `connect_never_internal_error` : in EVERY scenario built by `start` / `connect` / `set_initial_event` calls, a `connect`
+                 call (any number of attribute pairs, with or without `async_requests`) either succeeds or raises ScenarioError -
+                 the `assert` of `TieredInterval.__lt__` behind `min(input_delays[src], delay)` cannot fire, because all delays
+                 stored for one pair of simulators have one shape (builder invariant `Build.BuiltOk`, by induction over the calls)
 * `scoping_*`  : the delay's cutoff is the depth of the innermost group containing both
                  simulators (longest common prefix of their group paths, compared by identity),
                  so sibling groups share only their parent
 -/
 import MosaikModel.Connect
 import MosaikProofs.Lemmas.Tiered
+import MosaikProofs.Build.Invariant
 namespace Mosaik.C11
 open Mosaik
 
@@ -203,5 +208,28 @@ theorem accepted_valid (w : World) (c : ConnectCall) (sa da : Nat) (w' : World)
 /-! non-vacuity -/
 example : connectInterval [0] [1] 0 1 = none ∧ connectInterval [0, 0] [0, 1] 0 1 = some ⟨3, 2, [0, 1, 0]⟩
     ∧ connectInterval [0] [] 2 0 = some ⟨2, 1, [2]⟩ := by decide
+
+/-- **`connect` never dies with an internal error**: from any scenario built by valid calls, a `connect` call between
+entities of started simulators either succeeds or raises ScenarioError; and the world it leaves behind is again well built
+(so the statement holds for the next call as well) -/
+theorem connect_never_internal_error (ops : List Build.Op) (hv : Build.Valid {} ops) (c : ConnectCall)
+    (hs : c.src < (Build.build ops).sims.length) (hd : c.dst < (Build.build ops).sims.length) :
+    ((Build.build ops).connect c).2 ≠ some .assertion ∧ Build.BuiltOk ((Build.build ops).connect c).1 := by
+  have h := Build.build_builtOk ops {} Build.builtOk_empty hv
+  exact ⟨(Build.connect_builtOk h c hs hd).2, (Build.connect_builtOk h c hs hd).1⟩
+
+/-- what every built scenario satisfies: the tables only mention started simulators, every stored delay has the shape the
+two groups dictate, `input_delays` holds one entry per predecessor, which is a lower bound of every trigger connection's delay -/
+theorem built_tables (ops : List Build.Op) (hv : Build.Valid {} ops) : Build.BuiltOk (Build.build ops) :=
+  Build.build_builtOk ops {} Build.builtOk_empty hv
+
+/-- non-vacuity: three calls (two starts in a group, a weak connection after a plain one between the same pair) are valid,
+and the pair's `input_delays` entry is the minimum (the plain delay) -/
+example :
+    let d : SimDecl := { ty := .hybrid, group := [0], cls := (parseAttrs { anyInputs := false, attrs := some [0, 1, 2, 3], trigger := some [1], nonPersistent := some [3] } .hybrid).getD default }
+    let ops : List Build.Op := [.start d, .start d, .connect { src := 0, seid := 0, dst := 1, deid := 0, pairs := [(3, 1)] },
+      .connect { src := 0, seid := 0, dst := 1, deid := 0, pairs := [(3, 1)], weak := true }]
+    ((Build.build ops).sim 1).inputDelays = [(0, ⟨2, 2, [0, 0]⟩)] ∧ ((Build.build ops).sim 0).triggers.length = 2 := by
+  decide
 
 end Mosaik.C11
